@@ -34,7 +34,8 @@ CSV_FILES = {
     'tagonly': HDR + 'BIG[amount>500],Big,,,large\nSHOP,Shop,Shopping,,\n# comment line\n\nBIG,BigShop,Shopping,Big,\n',
     'combined': HDR + 'M[amount:50-200][date:2024-01-01..2024-12-31],Combo,Misc,Sub,a|b\nM[amount>200][month=6],June,Misc,,\nM,Plain,Misc,,\n',
     'nocat': HDR + 'FOO,Foo,,,\nBAR,Bar,Cat,,\nFOO,Foo2,Cat2,,t\n',
-    'names': HDR + 'XX,Name ] odd,Cat: x,Sub,\nYY,A B  C,Cat,,t1| t2 \n',
+    'names': HDR + 'XX,Name ] odd,Cat: x,Sub,\nYY,A B  C,Cat,,t1| t2 \nZZ,Depot (Reno),Rental Property #2,Unit #4 Repairs,gifts # holiday\n',
+    'interleaved': HDR + 'LYFT,Lyft,Transport,Ride,\nUBER\\s*EATS,Uber Eats,Food,Delivery,\nUBER,Uber,Transport,Ride,\nCOSTCO,Costco,Shopping,,\n\\bGAS\\b,Gas,Transport,Fuel,\n',
 }
 _PATHS = {}
 
